@@ -288,6 +288,12 @@ def gen_cases(rng, tier):
         names = rng.sample(NAMES, rng.randint(3, 4))
         cases.append({'kind': 'step', 'proc': proc, 'names': names, 'sel': ['list', [names[0], names[2]]]})
         cases.append({'kind': 'step', 'proc': proc, 'names': names, 'sel': ['list', [names[-1], names[0]]]})
+    # the argument forms of one processor under the same selector: validate(field, fn) means validate(row function) with
+    # fn applied to the row's value for that field, in every selected resource, whether or not its schema declares the field
+    for i in range({'quick': 24, 'thorough': 200, 'search': 40}[tier]):
+        names = rng.sample(NAMES, rng.randint(2, 4))
+        cases.append({'kind': 'forms', 'names': names, 'sel': gen_sel(rng, names) if i % 3 else ['all'],
+                      'fn': rng.pick(['required', 'small', 'required_small']), 'lacking': [j for j in range(len(names)) if rng.chance(0.5)] or [0]})
     for i in range({'quick': 6, 'thorough': 40, 'search': 6}[tier]):
         names = rng.sample(NAMES, rng.randint(2, 3))
         cases.append({'kind': 'step', 'proc': 'parallelize', 'names': names, 'sel': gen_sel(rng, names)})
@@ -309,7 +315,38 @@ def canon(out):
     return {'res': res, 'names': [d['name'] for d in out['dp']['resources']], 'nstreams': len(out['rows'])}
 
 
+FORM_FNS = {'required': lambda v: v is not None, 'small': lambda v: v is None or v < 12, 'required_small': lambda v: v is not None and v < 12}
+
+
+def forms_resources(case):
+    res = []
+    for i, n in enumerate(case['names']):
+        rows = [dict(r, b=r['b'] + 10 * i) for r in ROWS] + [{'a': 'z', 'b': None}]
+        if i in case['lacking']:
+            # the schema does not declare b and the rows do not carry it
+            res.append({'name': n, 'fields': FIELDS[:1], 'rows': [{'a': r['a']} for r in rows], 'pk': None})
+        else:
+            res.append({'name': n, 'fields': FIELDS, 'rows': rows, 'pk': None})
+    return res
+
+
+def run_forms(case):
+    sel = py_sel(case['sel'])
+    fn = FORM_FNS[case['fn']]
+    out = {}
+    for form, mk in (('field', lambda: DF.validate('b', fn, resources=sel, on_error=DF.schema_validator.drop)),
+                     ('row', lambda: DF.validate(lambda row: fn(row.get('b')), resources=sel, on_error=DF.schema_validator.drop))):
+        try:
+            o = run_stream(forms_resources(case), [mk()])
+        except Exception as e:
+            o = {'error': err_code(e), 'exc': '%s: %s' % (type(e).__name__, e)}
+        out[form] = {'error': o['error'], 'exc': o.get('exc')} if 'error' in o else {'rows': [rows_enc(x) for x in o['rows']]}
+    return out
+
+
 def run_impl(case):
+    if case['kind'] == 'forms':
+        return run_forms(case)
     names = case['names']
     sel = py_sel(case['sel'])
     if case['kind'] == 'matcher':
@@ -413,6 +450,21 @@ def oracle(case, out):
     names = case['names']
     sp = spec(case['sel'], names)
     proc = case.get('proc')
+    if case['kind'] == 'forms':
+        if sp is None:
+            return None if all('error' in out[f] for f in ('field', 'row')) else 'validate: out-of-range integer selector accepted'
+        fn = FORM_FNS[case['fn']]
+        want = [rows_enc([r for r in res['rows'] if not selected or fn(r.get('b'))]) for res, selected in zip(forms_resources(case), sp)]
+        for form in ('field', 'row'):
+            if 'error' in out[form]:
+                return 'validate (%s form) with selector %r failed: %s' % (form, py_sel(case['sel']), out[form]['exc'])
+            if out[form]['rows'] != want:
+                bad = [n for n, g, w in zip(names, out[form]['rows'], want) if g != w]
+                return ('validate(%s, resources=%r, on_error=drop) over %r (resources %r do not declare the field): resources %r come out with %r rows, '
+                        'the selector and the function give %r') % (
+                    "'b', fn" if form == 'field' else 'row function', py_sel(case['sel']), names, [names[j] for j in case['lacking']], bad,
+                    [len(x) for x in out[form]['rows']], [len(x) for x in want])
+        return None
     if case['kind'] == 'matcher':
         if sp is None:
             return None if 'error' in out else 'matcher: out-of-range integer selector accepted'
@@ -492,6 +544,16 @@ def consecutive(sp):
 
 
 def coq_term(case, out):
+    if case['kind'] == 'forms':
+        names = cstrs(case['names'])
+        if spec(case['sel'], case['names']) is None:
+            return 'match selected %s %s with Err _ => true | Ok _ => false end' % (coq_sel(case['sel']), names)
+        if 'error' in out['field']:
+            return None
+        # a resource whose rows changed is one the model's reading of the selector selects
+        changed = [g != rows_enc(res['rows']) for g, res in zip(out['field']['rows'], forms_resources(case))]
+        return ('match selected %s %s with Ok l => forallb (fun p => implb (fst p) (snd p)) (combine %s l) | Err _ => false end'
+                % (coq_sel(case['sel']), names, clist([cbool(b) for b in changed])))
     obs = observed_selected(case, out)
     names = cstrs(case['names'])
     if obs is None:
@@ -515,6 +577,8 @@ def nontrivial(case, out):
 
 
 def shrinks(case):
+    if case['kind'] == 'forms':
+        return
     if len(case['names']) > 1:
         for i in range(len(case['names'])):
             c = copy.deepcopy(case)
